@@ -2,7 +2,8 @@
 //   C15_probe corr   <seed> <nsystems> <maxBodies>   prints model inputs (SYS/BODY lines) + implementation results (OUT ...)
 //   C15_probe search <seed> <nsystems> <maxBodies>   evaluates the property's own predicates on the implementation alone
 // Random simbody trees over the 17 built-in mobilizer types (mb_common.h), forward/reversed, quaternion/Euler,
-// with three mass modes: 0 all bodies massive; 1 some non-terminal bodies massless; 2 every body massless (Weld only).
+// with four mass modes: 0 all bodies massive; 1 some non-terminal bodies massless; 2 every body massless (Weld only);
+// 3 as 1 plus massless welded leaves (marker frames).
 // Per-body inputs are what the implementation reports, unprocessed: X_GB (R row-major, p), V_GB, A_GB, body mass properties in B
 // (mass, mass centre, unit inertia).
 #include "mb_common.h"
@@ -11,14 +12,17 @@
 struct C15Sys {
     RandSystem rs; int mode; bool haveAcc; std::vector<int> par;
     void build(Rng& r, int nb, int shape) {
-        int m = r.I(0, 19); mode = m < 13 ? 0 : (m < 19 ? 1 : 2);
+        int m = r.I(0, 19); mode = m < 11 ? 0 : (m < 15 ? 1 : (m < 19 ? 3 : 2));
         rs.euler = r.I(0, 1) == 1;
         par.resize(nb); std::vector<int> nkids(nb + 1, 0);
         for (int i = 0; i < nb; ++i) { int p = (shape == 0) ? i : (shape == 1 ? (i == 0 ? 0 : 1) : r.I(0, i)); par[i] = p; nkids[p]++; }
         for (int i = 0; i < nb; ++i) {
             MobilizedBody& parent = rs.matter.updMobilizedBody(MobilizedBodyIndex(par[i]));
             int ty = mode == 2 ? 16 : r.I(0, NMOBTYPES - 1); bool rev = r.I(0, 3) == 0;
-            bool massless = mode == 2 || (mode == 1 && nkids[i + 1] > 0 && r.I(0, 2) == 0);
+            bool massless = mode == 2 || ((mode == 1 || mode == 3) && nkids[i + 1] > 0 && r.I(0, 2) == 0);
+            // mode 3: also massless welded leaves (marker frames), so that a parent can have a child whose whole subtree is massless
+            // before or after a sibling subtree that has mass
+            if (mode == 3 && nkids[i + 1] == 0 && r.I(0, 1) == 0) { massless = true; ty = 16; }
             // a massless body keeps a (meaningless but reported) mass-centre station: the aggregates must ignore it
             Body::Rigid body(massless ? MassProperties(0, r.v3(0.5), Inertia(0)) : randomMassProps(r));
             addMobod(ty, parent, r.xf(), body, r.xf(), rev);
